@@ -44,7 +44,7 @@ func runOneshot(in io.Reader, permSeed int64) {
 			} else {
 				res["generate"] = fmt.Sprintf("%x", sha256.Sum256([]byte(code)))
 			}
-			o := validate(h.Profile, h.Data, rcOf(h))
+			o := validateAt(h.Profile, h.Data, rcOf(h), clockOf(h))
 			res["validate"] = o.Kind + ":" + fmt.Sprintf("%x", sha256.Sum256([]byte(o.Report)))
 		}()
 		b, _ := json.Marshal(res)
@@ -127,12 +127,17 @@ func genC06(g *G, n int, out io.Writer) {
 		def := config.DefaultReportConfiguration()
 		base := caseHead{Op: "c06", Profile: prefixPair(9)[1].Profile, Data: prefixPair(9)[1].Data}
 		rcs := []caseRC{
-			{def.ReportSchemaIri, def.LexicalSchemaIri, true},
-			{def.ReportSchemaIri, "http://tenant-b.example.org/dialects/lexical-2.yaml", true},
-			{"http://tenant-b.example.org/dialects/report-2.yaml", def.LexicalSchemaIri, true},
-			{def.ReportSchemaIri, def.LexicalSchemaIri, false},
-			{"", "", true},
-			{def.ReportSchemaIri, "", false},
+			{def.ReportSchemaIri, def.LexicalSchemaIri, true, ""},
+			{def.ReportSchemaIri, "http://tenant-b.example.org/dialects/lexical-2.yaml", true, ""},
+			{"http://tenant-b.example.org/dialects/report-2.yaml", def.LexicalSchemaIri, true, ""},
+			{def.ReportSchemaIri, def.LexicalSchemaIri, false, ""},
+			{"", "", true, ""},
+			{def.ReportSchemaIri, "", false, ""},
+			// constant clocks at unusual instants: the zero time, the Unix epoch, a far future, a zoned instant
+			{def.ReportSchemaIri, def.LexicalSchemaIri, true, "0001-01-01T00:00:00Z"},
+			{def.ReportSchemaIri, def.LexicalSchemaIri, true, "1970-01-01T00:00:00Z"},
+			{def.ReportSchemaIri, def.LexicalSchemaIri, true, "9999-12-31T23:59:59Z"},
+			{def.ReportSchemaIri, def.LexicalSchemaIri, true, "2024-02-29T23:59:60+05:30"},
 		}
 		for k := range rcs {
 			c := base
